@@ -97,13 +97,11 @@ var builtinFunctions = map[XmlName]Function{
 }
 
 func last(context Context, args ...Result) (Result, error) {
-	nodeSet, ok := context.Result().(NodeSet)
-
-	if !ok {
-		return nil, errQueryNonNodeset
+	if c, ok := context.(*exprContext); ok {
+		return Number(c.contextSize), nil
 	}
 
-	return Number(len(nodeSet)) + 1, nil
+	return nil, errQueryNonNodeset
 }
 
 func position(context Context, args ...Result) (Result, error) {
